@@ -100,7 +100,8 @@ class BodyGen:
     `trig` = None: only constructs the scanner is expected to nest correctly; otherwise exactly
     one occurrence of the named trigger shape (a known mis-nesting class) is planted."""
 
-    def __init__(self, rng, depth, trig=None):
+    def __init__(self, rng, depth, trig=None, simple=False):
+        self.plainmode = simple   # only constructs inside the proved token grammar (Spec_C34.body_ok)
         self.rng = rng
         self.feat = set()
         self.maxdepth = depth
@@ -113,6 +114,11 @@ class BodyGen:
         k = r.randrange(22 if not indq else 12)
         if insub:      # inside $( ) / backquotes: plain material only
             k = r.choice([0, 1, 3, 7, 12, 16, 17, 21]) if not indq else r.choice([0, 3, 10, 11])
+        if self.plainmode:
+            k = r.choice([0, 1, 2, 4, 8, 10, 12, 13, 16, 17]) if not indq else r.choice([0, 1, 10, 11])
+            if k == 4:
+                self.feat.add("pe-op")
+                return "${x" + r.choice([":-", ":+", "-", "%", "%%", "#", "##", "/", "//"]) + g_plain(r, 0, 4) + "}"
         if k <= 2:
             return g_plain(r)
         if k == 3:
@@ -208,6 +214,13 @@ class BodyGen:
         cmd = r.choice(["echo", "echo", ":", "emake", "local", "einfo", "cd", "[", "printf", "true"])
         if insub and cmd == "local":
             cmd = "echo"
+        if self.plainmode:
+            ws = [self.word(d) for _ in range(r.randint(0, 4))]
+            cmd = r.choice(["echo", ":", "emake", "einfo", "cd", "printf", "true", "local"])
+            s = cmd + "".join(" " + w for w in ws)
+            if r.random() < 0.15:
+                s += r.choice([" > /dev/null", " 2>&1", " >&2", " &> /dev/null"])
+            return s
         n = r.randint(0, 4)
         ws = [self.word(d, insub=insub) for _ in range(n)]
         if not self.planted and self.trig and d <= 1 and not insub and r.random() < 0.5:
@@ -258,6 +271,8 @@ class BodyGen:
     def command(self, d, ingroup=False):
         r = self.rng
         k = r.randrange(26)
+        if self.plainmode:
+            k = r.choice([0, 1, 2, 5, 6, 9, 10, 11, 12, 13, 14, 16, 17, 18, 22])
         deep = d < self.maxdepth
         if not self.planted and self.trig in ("close-brace-word", "heredoc-in-group", "escaped-brace-expansion-in-group") and d <= 1 and r.random() < 0.4:
             self.planted = True
@@ -306,10 +321,12 @@ class BodyGen:
             arms = []
             for _ in range(r.randint(1, 3)):
                 pat = r.choice(["a", "a|b", "*", "\"}\"", "'}'", "\\}", "x*", "\"$x\"", "[a-z]", "'{'", "-*", "\"{\""])
+                if self.plainmode and "$" in pat:
+                    pat = "b*"
                 if "}" in pat or "{" in pat:
                     self.feat.add("case-brace-pattern")
                 arms.append(pat + ") " + self.cmdlist(d + 1, ingroup) + " ;;")
-            return "case " + self.word(d) + " in " + " ".join(arms) + " esac"
+            return "case " + (g_plain(r) if self.plainmode else self.word(d)) + " in " + " ".join(arms) + " esac"
         if k == 16:
             self.feat.add("pipeline")
             return self.simple(d) + " | " + self.simple(d)
@@ -318,6 +335,8 @@ class BodyGen:
             return self.simple(d) + r.choice([" && ", " || "]) + self.simple(d)
         if k == 18:
             self.feat.add("cond")
+            if self.plainmode:
+                return "[[ " + r.choice(["a == \"}\"", "-n x", "x = a*", "a != '{' && b == x", "x == \"{\""]) + " ]]"
             return "[[ " + r.choice(["$a == \"}\"", "-n $x", "$x = a*", "$x =~ ^a.*$", "$a != '{' && $b == x", "${x} == \"{\""]
                                     + (["-z ${x%\\}}"] if self.ctx != "brace" else [])) + " ]]"
         if k == 19 or k == 20:
@@ -365,8 +384,8 @@ class BodyGen:
         return b
 
 
-def g_func(rng, name, depth, trig=None):
-    bg = BodyGen(rng, depth, trig)
+def g_func(rng, name, depth, trig=None, simple=False):
+    bg = BodyGen(rng, depth, trig, simple)
     body = bg.body()
     sep = "\n" if body.endswith("\n") else ";"
     return f"{name}() {{ {body}{sep} }}", bg.feat
@@ -423,7 +442,15 @@ def build_cases(chk, n, depth, trig_share=0.12):
         vnames = rng.sample(VAR_NAMES, nv)
         fnames = rng.sample(FUNC_NAMES, nf)
         vs = [(nm,) + g_var(rng, nm) for nm in vnames]
-        fs = [(nm,) + g_func(rng, nm, depth, rng.choice(TRIGGERS) if rng.random() < trig_share else None) for nm in fnames]
+        fs = []
+        for nm in fnames:
+            u = rng.random()
+            if u < trig_share:
+                fs.append((nm,) + g_func(rng, nm, depth, rng.choice(TRIGGERS)))
+            elif u < trig_share + 0.35:
+                fs.append((nm,) + g_func(rng, nm, depth, None, simple=True))
+            else:
+                fs.append((nm,) + g_func(rng, nm, depth))
         with open(f"{d}/v{i}.sh", "w") as f:
             f.write("".join(src + "\n" for _, src, _ in vs))
         with open(f"{d}/f{i}.sh", "w") as f:
@@ -599,6 +626,185 @@ def bash_oracle(chk, cases):
     return bad
 
 
+
+# ------------------------------------------------------------------------------- bash text -> dump AST (Spec_C34.def)
+def c_pairs(ps):
+    return clist(["(%s,%d%%N)" % (cbool(b), ord(ch)) for b, ch in ps], "bool * N")
+
+
+def lex_pairs(t, i, closer):
+    """content of "..." / $'...': (escaped?, char) pairs up to the unescaped closer; returns (pairs, index after closer)."""
+    ps = []
+    while i < len(t):
+        ch = t[i]
+        if ch == closer:
+            return ps, i + 1
+        if ch == "\\" and i + 1 < len(t):
+            ps.append((True, t[i + 1]))
+            i += 2
+            continue
+        ps.append((False, ch))
+        i += 1
+    return None, i
+
+
+def lex_value(v):
+    """`set`-style value text -> Coq qvalue term, or None."""
+    def segs(t, i, stop):
+        out = []
+        while i < len(t) and t[i] not in stop:
+            ch = t[i]
+            if ch == "'":
+                j = t.find("'", i + 1)
+                if j < 0:
+                    return None, i
+                out.append("VSq " + cstr(t[i + 1:j]))
+                i = j + 1
+            elif ch == "\\" and i + 1 < len(t):
+                out.append("VEsc %d%%N" % ord(t[i + 1]))
+                i += 2
+            elif ch == "$" and t[i + 1:i + 2] == "'":
+                ps, i = lex_pairs(t, i + 2, "'")
+                if ps is None:
+                    return None, i
+                out.append("VAnsi " + c_pairs(ps))
+            elif ch == '"':
+                ps, i = lex_pairs(t, i + 1, '"')
+                if ps is None:
+                    return None, i
+                out.append("VDq " + c_pairs(ps))
+            else:
+                j = i
+                while j < len(t) and t[j] not in "'\\\"" and t[j] not in stop and not (t[j] == "$" and t[j + 1:j + 2] == "'"):
+                    j += 1
+                if j == i:
+                    j = i + 1
+                out.append("VBare " + cstr(t[i:j]))
+                i = j
+        return out, i
+    if v.startswith("(") and v.endswith(")"):
+        t = v[1:-1]
+        elems = []
+        i = 0
+        while i < len(t):
+            if t[i] != "[":
+                return None
+            j = t.find("]=", i)
+            if j < 0:
+                return None
+            sg, k = segs(t, j + 2, " ")
+            if sg is None:
+                return None
+            elems.append("(%s, %s)" % (cstr(t[i + 1:j]), clist(sg, "vseg")))
+            i = k
+            if i < len(t):
+                if t[i] != " " or i + 1 >= len(t):
+                    return None
+                i += 1
+        return "(QArray %s)" % clist(elems, "list N * list vseg")
+    sg, k = segs(v, 0, "")
+    if sg is None:
+        return None
+    return "(QScalar %s)" % clist(sg, "vseg")
+
+
+def lex_toks(t, i, closer):
+    """token list up to the statement separator (closer None) or the closing delimiter."""
+    out = []
+    while i < len(t):
+        ch = t[i]
+        if closer is None and ch in ";\n":
+            return out, i
+        if closer is not None and ch == closer:
+            return out, i
+        if ch == "\\" and i + 1 < len(t):
+            out.append("TEsc %d%%N" % ord(t[i + 1]))
+            i += 2
+        elif ch == "'":
+            j = t.find("'", i + 1)
+            if j < 0:
+                out.append("TLit 39%N")
+                i += 1
+            else:
+                out.append("TSq " + cstr(t[i + 1:j]))
+                i = j + 1
+        elif ch == '"':
+            ps, j = lex_pairs(t, i + 1, '"')
+            if ps is None:
+                out.append("TLit 34%N")
+                i += 1
+            else:
+                out.append("TDq " + c_pairs(ps))
+                i = j
+        elif ch == "$" and t[i + 1:i + 2] == "{" and "}" in t[i + 2:]:
+            j = t.find("}", i + 2)
+            out.append("TPE " + cstr(t[i + 2:j]))
+            i = j + 1
+        elif ch == "$" and t[i + 1:i + 2] == "'":
+            ps, j = lex_pairs(t, i + 2, "'")
+            if ps is None:
+                out.append("TLit 36%N")
+                i += 1
+            else:
+                out.append("TAnsi " + c_pairs(ps))
+                i = j
+        elif ch in "{(":
+            inner, j = lex_toks(t, i + 1, "}" if ch == "{" else ")")
+            if j < len(t):
+                out.append(("TBr " if ch == "{" else "TPar ") + clist(["(%s)" % x for x in inner], "tok"))
+                i = j + 1
+            else:
+                out.append("TLit %d%%N" % ord(ch))
+                i += 1
+        else:
+            out.append("TLit %d%%N" % ord(ch))
+            i += 1
+    return out, i
+
+
+def lex_func(nm, t):
+    head = nm + " () \n{"
+    if not (t.startswith(head) and t.endswith("}\n")):
+        return None
+    b = t[len(head):-2]
+    i = 0
+    while i < len(b) and b[i].isspace():
+        i += 1
+    lead = b[:i]
+    stmts = []
+    while i < len(b):
+        toks, j = lex_toks(b, i, None)
+        if j >= len(b):
+            return None                       # the body must end with a separator + white space
+        sep = b[j]
+        k = j + 1
+        while k < len(b) and b[k].isspace():
+            k += 1
+        stmts.append("{| s_toks := %s; s_sep := %d%%N; s_ws := %s |}"
+                     % (clist(["(%s)" % x for x in toks], "tok"), ord(sep), cstr(b[j + 1:k])))
+        i = k
+    return "(Func %s %s %s)" % (cstr(nm), cstr(lead), clist(stmts, "stmt"))
+
+
+def lex_case(c):
+    """The whole dump as a Coq `list def`, or None when some chunk is not of the expected outer shape."""
+    ds = []
+    for k, nm, t in c.chunks:
+        if k == "v":
+            if not (t.startswith(nm + "=") and t.endswith("\n")):
+                return None
+            v = lex_value(t[len(nm) + 1:-1])
+            if v is None:
+                return None
+            ds.append("(Assign %s %s)" % (cstr(nm), v))
+        else:
+            f = lex_func(nm, t)
+            if f is None:
+                return None
+            ds.append(f)
+    return clist(ds, "def")
+
+
 # ------------------------------------------------------------------------------- raw stream
 SNIPPETS = [
     "function foo() {:;}", "functionfoo() {:;}", "foo() {\n    :\n}\n\nbar() {\n    :\n}\n",
@@ -688,6 +894,28 @@ def finding_class(c):
     return classes.pop() if len(classes) == 1 else None
 
 
+WITNESS_SRC = "f() { { echo }; }; }\n"
+WITNESS_TEXT = "f () \n{ \n    { \n        echo }\n    }\n}\n"      # = Proofs_C34.witness_f
+
+
+def check_witness(chk):
+    """The refutation witness of Prop_C34 (filter_commutes_refuted_on_bash_dump) must be what real bash
+    prints for its source, and the real filter must fail on it exactly as the model does."""
+    r = subprocess.run(BASH + ["-c", WITNESS_SRC + "declare -f f"], capture_output=True, text=True, timeout=60)
+    if r.stdout != WITNESS_TEXT:
+        chk.violation("correspondence", {"what": "bash no longer prints the refutation witness of Prop_C34 as recorded",
+                                         "bash": r.stdout, "recorded": WITNESS_TEXT}, no_input=True)
+        return
+    out = run_impl(WITNESS_TEXT + "Z=1\n", [], ["f"], False, False)
+    if out != "\n}\nZ=1\n":
+        chk.note("the refutation witness of filter_commutes_refuted_on_bash_dump no longer fails on the implementation "
+                 "as the model says (got %r)" % (out,))
+        if out != "\nZ=1\n":
+            chk.violation("correspondence", {"what": "implementation and model disagree on the refutation witness",
+                                             "input": WITNESS_TEXT + "Z=1\n", "implementation": out}, no_input=True)
+    chk.count("witness", 1)
+
+
 # ------------------------------------------------------------------------------- main
 def main(chk: Check):
     chk.rule("variables with values from 12 classes (every quoting style `set` emits: bare, '..', '\\'' splices, $'..', "
@@ -704,12 +932,23 @@ def main(chk: Check):
     chk.lint(["C34"])
     chk.check_fingerprint(ANCHORS)
     rng = chk.rng
+    check_witness(chk)
 
     # ---- dump stream
-    cases = build_cases(chk, chk.n(110, 1500), depth=2 if not chk.thorough else 3)
+    cases = build_cases(chk, chk.n(90, 1500), depth=2 if not chk.thorough else 3)
     hc = Case()       # the one fixed case of the hang class (costs its 2 s alarm once per run)
     hc.chunks, hc.feat, hc.trig = [("f", "f", "f () \n{ \n    cat <<''\nx\n\n}\n"), ("v", "Z", "Z=1\n")], {"heredoc-empty-delim"}, {}
     hc.vars, hc.funcs, hc.vwl, hc.fwl = [], ["f"], False, False
+    corpus = []       # corpus first: one minimal bash-printed member of every known mis-nesting class
+    cp = os.path.join(os.path.dirname(os.path.dirname(os.path.abspath(__file__))), "corpus", "C34", "known.json")
+    if os.path.exists(cp):
+        import json
+        for e in json.load(open(cp)):
+            c = Case()
+            c.chunks = [tuple(x) for x in e["chunks"]]
+            c.feat, c.trig = {"corpus"}, dict(e["trig"])
+            c.vars, c.funcs, c.vwl, c.fwl = e["vars"], e["funcs"], e["vwl"], e["fwl"]
+            corpus.append(c)
     feats = {}
     for c in cases:
         pick_filters(rng, c)
@@ -721,6 +960,10 @@ def main(chk: Check):
             chk.nontrivial(c.data + repr((c.vars, c.funcs, c.vwl, c.fwl)))
     hc.data = "".join(t for _, _, t in hc.chunks)
     hc.impl = run_impl(hc.data, hc.vars, hc.funcs, hc.vwl, hc.fwl)
+    for c in corpus:
+        c.data = "".join(t for _, _, t in c.chunks)
+        c.impl = run_impl(c.data, c.vars, c.funcs, c.vwl, c.fwl)
+    cases = corpus + cases
     cases.append(hc)
     chk.count("dump", len(cases))
     chk.cov["features"] = dict(sorted(feats.items()))
@@ -734,7 +977,7 @@ def main(chk: Check):
     pool = list(SNIPPETS) + small
     for s in SNIPPETS:
         raw.append((s, ["foo", "dar", "a", "x", "MODULE_NAMES", "FOO", "g"], ["foo", "f", "src_unpack", "x"], False, False))
-    for _ in range(chk.n(120, 3000)):
+    for _ in range(chk.n(100, 3000)):
         k = rng.randrange(3)
         if k == 0:
             s = "".join(rng.choice(SOUP) for _ in range(rng.randint(0, 24)))
@@ -786,6 +1029,38 @@ def main(chk: Check):
                                    "speak about this code)", "input": {"data": item[0], "vars": item[1], "funcs": item[2],
                                                                        "vars_is_whitelist": item[3], "funcs_is_whitelist": item[4]},
                            "implementation": impl}, no_input=not (b1_bad or b2))
+
+    # ---- render stream: the dump AST of the theorems against bash's own text, and how much of the
+    #      stream lies inside the proved grammar (def_ok)
+    if ok:
+        rcases = []
+        for c in cases[: chk.n(30, 600)]:
+            if c is hc or isinstance(c.impl, Err):
+                continue
+            term = lex_case(c)
+            if term is not None:
+                rcases.append((term, digest(c.data), c))
+        r3 = chk.coq_eval("render", IMPORTS, "list def", [(t, d) for t, d, _ in rcases],
+                          ["mismatches run_render cases", "where_ (fun i r => forallb def_ok i) cases",
+                           "where_ (fun i r => negb (forallb (fun d => negb (is_func d) || def_ok d) i)) cases"], shard=25)
+        chk.count("render", len(rcases))
+        if r3 is not None:
+            for i in r3[0][:3]:
+                chk.violation("correspondence", {"what": "Spec_C34.render of the parsed dump AST differs from the text bash printed "
+                                                         "(the spec's renderer no longer describes bash's dump format)",
+                                                 "input": rcases[i][2].data}, no_input=True)
+            chk.cov["render_cases"] = len(rcases)
+            chk.cov["dumps_inside_proved_grammar"] = len(r3[1])
+            chk.cov["dumps_with_a_function_outside_proved_grammar"] = len(r3[2])
+            # every dump inside the proved grammar must pass (B): the theorem says so for the model
+            for i in r3[1]:
+                c = rcases[i][2]
+                if c.impl != expected_text(c):
+                    chk.violation("property", {"what": "a dump inside the proved grammar (def_ok) is filtered wrongly: the model no "
+                                                       "longer describes the code",
+                                               "input": {"data": c.data, "vars": c.vars, "funcs": c.funcs,
+                                                         "vars_is_whitelist": c.vwl, "funcs_is_whitelist": c.fwl},
+                                               "expected": expected_text(c), "implementation": c.impl})
 
     # ---- report property failures (B1 textual, B2 bash) with classification
     failing = sorted(set(b1_bad) | set(b2))
